@@ -31,14 +31,6 @@ impl Ll {
             }
         }
     }
-    pub fn link_local(&self) -> Option<[u8; 16]> {
-        let iid = self.iid()?;
-        let mut a = [0u8; 16];
-        a[0] = 0xfe;
-        a[1] = 0x80;
-        a[8..].copy_from_slice(&iid);
-        Some(a)
-    }
     pub fn is_broadcast(&self) -> bool {
         *self == Ll::Short([0xff, 0xff])
     }
@@ -481,7 +473,7 @@ pub fn decompress(p: &[u8], ll_src: Ll, ll_dst: Ll, ctxs: &Ctxs) -> Result<Decom
     let mut compressed = nh;
     // where to patch the "next header" value of the previous header: None = IPv6 header
     let mut patch: Option<usize> = None;
-    let mut set_nh = |hdrs: &mut Vec<u8>, first_nh: &mut u8, patch: Option<usize>, v: u8| match patch {
+    let set_nh = |hdrs: &mut Vec<u8>, first_nh: &mut u8, patch: Option<usize>, v: u8| match patch {
         None => *first_nh = v,
         Some(i) => hdrs[i] = v,
     };
@@ -919,9 +911,6 @@ pub struct RefReasm {
 impl RefReasm {
     pub fn new(max_slots: usize, max_ranges: usize, timeout_ms: i64) -> RefReasm {
         RefReasm { slots: vec![], max_slots, max_ranges, timeout_ms, refused_slots: 0, refused_ranges: 0, expired: 0 }
-    }
-    pub fn in_progress(&self) -> usize {
-        self.slots.len()
     }
     /// start of a poll at time `now`: incomplete datagrams older than the timeout are discarded
     pub fn poll_begin(&mut self, now_ms: i64) {
